@@ -37,8 +37,35 @@ Fixpoint judge_steps_a (mods : list (Z * Z * Z * modif)) (mem : list (list Q)) (
   | [], [] => []
   | _, _ => [(19, false)]
   end.
+(* a stateful modifier must not miss a frame: when its instance is evaluated, an action-level modifier is always applied, and
+   an input-level one is applied unless its binding is still being ignored - which it cannot be in a frame in which the
+   input it names is physically inactive (C08: ignored only while held since creation) *)
+Definition mod_sites (sc : scenario) : list (Z * Z * Z * modif * option input * device) :=
+  flat_map (fun x =>
+    let '(c, e, spec) := x in
+    flat_map (fun a => map (fun im => (c, e, fst im, snd im, None, i_pad spec)) (a_mods a) ++
+                       flat_map (fun b => map (fun im => (c, e, fst im, snd im, Some (b_input b), i_pad spec)) (b_mods b)) (a_binds a)) (i_actions spec)) (s_cfg sc).
+Definition stateful (m : modif) : bool := match m with MDeltaLerp _ _ | MAccumulate _ _ => true | _ => false end.
+Definition present_in (c e : Z) (o : out) : bool :=
+  existsb (fun m => match m with mi c' e' got _ => Z.eqb c c' && Z.eqb e e' && got end) (x_mirror o).
+Definition phys_on (r : raw) (dev : device) (i : input) : bool :=
+  as_bool (reader_value (mkRaw (r_keys r) (r_mbuttons r) (r_motion r) (r_wheel r) (r_pads r) []) consumed_reset dev i).
+Fixpoint judge_missed (sites : list (Z * Z * Z * modif * option input * device)) (before : out) (steps : list step) (outs : list out) : list (Z * bool) :=
+  match steps, outs with
+  | SFrame f :: steps', o :: outs' =>
+      map (fun s => let '(c, e, id, m, site, dev) := s in
+             (11, negb (stateful m && present_in c e before && negb (x_panicked o) &&
+                        match site with None => true | Some i => negb (phys_on (f_raw f) dev i) end &&
+                        match find_mod id (x_log o) with None => true | Some _ => false end))) sites
+      ++ judge_missed sites o steps' outs'
+  | SOp _ :: steps', o :: outs' => judge_missed sites o steps' outs'
+  | [], [] => []
+  | _, _ => [(19, false)]
+  end.
+Definition empty_out : out := mkOut [] [] [] [] [] [] [] true true false.
 Definition ok_a (p : scenario * trace_t) : Z :=
   match p with
-  | (sc, trace outs) => let ms := all_mods sc in first_fail (judge_steps_a ms (map (fun _ => [0; 0; 0]%Q) ms) (s_steps sc) outs)
+  | (sc, trace outs) => let ms := all_mods sc in first_fail (judge_steps_a ms (map (fun _ => [0; 0; 0]%Q) ms) (s_steps sc) outs ++
+                                                             judge_missed (mod_sites sc) empty_out (s_steps sc) outs)
   | (_, App.panic) => 18
   end.
